@@ -373,7 +373,10 @@ def _read_header(fh: BinaryIO) -> str:
 
     # the XML declaration states that the file is UTF-8 (other
     # encodings are not allowed)
-    doctype_decoded = doctype.decode('utf-8')
+    try:
+        doctype_decoded = doctype.decode('utf-8')
+    except UnicodeDecodeError:
+        doctype_decoded = ''  # not UTF-8, so not a WN-LMF doctype either
     if doctype_decoded not in _DOCTYPES:
         raise LMFError('invalid or missing DOCTYPE declaration')
 
